@@ -97,6 +97,9 @@ impl Module for M {
             }
             return;
         }
+        if self.ending == 6 {
+            current().set_stereotyp(des::net::module::Stereotyp { on_panic_catch: true, ..Default::default() });
+        }
         self.log.lock().unwrap().push("H:start".into());
         schedule_in(Message::default().kind(1), Duration::from_secs(1));
         schedule_in(Message::default().kind(2), Duration::from_secs(2));
@@ -111,6 +114,9 @@ impl Module for M {
     }
     fn handle_message(&mut self, m: Message) {
         self.log.lock().unwrap().push(format!("H:msg{}:id{}", m.header().kind, m.header().id));
+        if at_one_second() && self.ending == 6 {
+            panic!("handler gives up");
+        }
         if at_one_second() && self.ending == 5 {
             // a later event first, then a long burst for this instant
             schedule_in(Message::default().kind(77), Duration::from_secs(5));
@@ -217,9 +223,13 @@ fn run_case(c: &Case) -> Result<u64, String> {
                     i += 1;
                 }
             }
-            // at most one handler call per bracket
-            if i < own.len() && own[i].starts_with("H:") {
+            // at most one handler call per bracket ...
+            if i < own.len() && own[i].starts_with("H:") && *own[i] != "H:task" {
                 handlers += 1;
+                i += 1;
+            }
+            // ... and the module's task (not a handler) may finish inside any bracket
+            while i < own.len() && *own[i] == "H:task" {
                 i += 1;
             }
             for k in (0..n).rev() {
@@ -233,7 +243,7 @@ fn run_case(c: &Case) -> Result<u64, String> {
                 break;
             }
         }
-        if c.ending != 5 && (!got.iter().any(|e| e == "H:start0") || (c.ending == 4 && got.iter().filter(|e| *e == "H:start1").count() != 1)) {
+        if c.ending < 5 && (!got.iter().any(|e| e == "H:start0") || (c.ending == 4 && got.iter().filter(|e| *e == "H:start1").count() != 1)) {
             return Err(format!("start-up variant {}: unexpected start stages in {got:?}", c.ending));
         }
         if c.ending == 5 {
@@ -350,7 +360,7 @@ impl Property for C14 {
     fn rule(&self, tier: Tier) -> String {
         format!(
             "every global stack of 0..={} elements x every per-module stack of 0..={} elements (Module::stack appending to the global stack element by element or as one multi-element stack, or replacing it) over {{pass, modify id, consume kind 1, consume kind 2, send on event_start, send on event_end}}; \
-             the module sees a start stage, message kind 1 (during which elements and the handler send to a sink), message kind 2, a timer wake-up and tear-down (normal, with a joined task that never finished, with at_sim_end returning an error: the tear-down event is bracketed all the same); plus two start-up variants (three stages, the first requests a shutdown; two stages, the first requests a restart): whatever is delivered or skipped, the call log consists of complete, non-interleaved brackets; plus a variant whose handler arms a later self message and then emits 40 messages in one event (elements emitting on event_start / event_end around it): the sink receives everything in program order; \
+             the module sees a start stage, message kind 1 (during which elements and the handler send to a sink), message kind 2, a timer wake-up and tear-down (normal, with a joined task that never finished, with at_sim_end returning an error: the tear-down event is bracketed all the same); plus two start-up variants (three stages, the first requests a shutdown; two stages, the first requests a restart): whatever is delivered or skipped, the call log consists of complete, non-interleaved brackets; plus a variant whose handler arms a later self message and then emits 40 messages in one event (elements emitting on event_start / event_end around it): the sink receives everything in program order; plus a variant whose handler panics under a panic-catching stereotype (the brackets stay complete); \
              oracle: expected call log computed directly (event_start in stack order interleaved with incoming until consumed, handler iff not consumed, event_end in reverse order, brackets never interleave, emitted messages reach the sink in program order); \
              non-trivial = stack with at least 2 elements",
             tier.pick(3, 4),
@@ -358,17 +368,17 @@ impl Property for C14 {
         )
     }
     fn assumptions(&self) -> Vec<String> {
-        vec!["processing elements that panic, and stacks changed at run time, are outside the alphabet".into()]
+        vec!["processing elements that panic themselves, and stacks changed at run time, are outside the alphabet".into()]
     }
     fn required_features(&self, _tier: Tier) -> Vec<&'static str> {
-        vec!["early_element_consumes", "element_sends", "global_and_local_parts", "module_replaces_stack", "empty_stack", "multi_element_stack_appended_to_global", "tear_down_ending_in_an_error", "module_turns_inert_between_start_stages", "large_emission_in_one_event"]
+        vec!["early_element_consumes", "element_sends", "global_and_local_parts", "module_replaces_stack", "empty_stack", "multi_element_stack_appended_to_global", "tear_down_ending_in_an_error", "module_turns_inert_between_start_stages", "large_emission_in_one_event", "handler_panic_caught_by_the_stereotype"]
     }
     fn explore(&self, ctx: &mut Ctx) {
         let gs = stacks(ctx.tier.pick(3, 4));
         let ls = stacks(ctx.tier.pick(2, 3));
         for g in &gs {
             for l in &ls {
-                for (replace, bulk, ending) in [(false, false, 0u8), (true, false, 0), (false, true, 0), (false, false, 1), (false, false, 2), (false, false, 3), (false, false, 4), (false, false, 5)] {
+                for (replace, bulk, ending) in [(false, false, 0u8), (true, false, 0), (false, true, 0), (false, false, 1), (false, false, 2), (false, false, 3), (false, false, 4), (false, false, 5), (false, false, 6)] {
                     if replace && g.len() > 1 {
                         continue;
                     }
@@ -387,6 +397,9 @@ impl Property for C14 {
                     }
                     if ending == 5 {
                         ctx.hit("large_emission_in_one_event");
+                    }
+                    if ending == 6 {
+                        ctx.hit("handler_panic_caught_by_the_stereotype");
                     }
                     ctx.begin(|| case_json(&c));
                     ctx.out.evaluations += 1;
